@@ -175,7 +175,7 @@ fn last_p2p(addr: &Multiaddr) -> Option<RefPeerId> {
 
 /// Everything the property says about an accepted peer id: the three renderings, nine
 /// round-trip flags, agreement with the reference.
-fn accepted_tail(p: PeerId, refp: Option<RefPeerId>, out: &mut Vec<u64>) {
+fn accepted_tail(p: PeerId, refp: Option<RefPeerId>, agree: bool, out: &mut Vec<u64>) {
     use serde::{Deserialize, Serialize};
     let bytes = p.to_bytes();
     let text = p.to_base58();
@@ -204,7 +204,7 @@ fn accepted_tail(p: PeerId, refp: Option<RefPeerId>, out: &mut Vec<u64>) {
         && p.to_multiaddr_peer_id().is_ok()
         && matches!(PeerId::from_multihash(mp), Ok(q) if q == p)
         && mh.to_bytes() == bytes;
-    for f in [f1, f2, f3, f4, f5, f6, f7, f8, f9] {
+    for f in [f1, f2, f3, f4, f5, f6, f7, f8, f9, agree] {
         out.push(f as u64);
     }
     match refp {
@@ -219,19 +219,54 @@ fn accepted_tail(p: PeerId, refp: Option<RefPeerId>, out: &mut Vec<u64>) {
     }
 }
 
-fn parse_result(kind: u64, r: Option<PeerId>, refp: Option<RefPeerId>) -> Vec<u64> {
+fn parse_result(kind: u64, r: Option<PeerId>, refp: Option<RefPeerId>, agree: bool) -> Vec<u64> {
     let mut out = vec![kind];
     match r {
         Some(p) => {
             out.push(1);
-            accepted_tail(p, refp, &mut out);
+            accepted_tail(p, refp, agree, &mut out);
         }
         None => {
             out.push(0);
             out.push(refp.is_some() as u64);
+            out.push(agree as u64);
         }
     }
     out
+}
+
+/// Every other way of turning the same bytes into a PeerId gives the same answer.
+fn bytes_entry_points_agree(b: &[u8], r: Option<PeerId>) -> bool {
+    use serde::Deserialize;
+    let a1 = PeerId::try_from(b.to_vec()).ok();
+    let a2 = PeerId::deserialize(binserde::FromBytes(b)).ok();
+    let mh = Multihash::from_bytes(b).ok();
+    let a3 = mh.and_then(|m| PeerId::try_from(m).ok());
+    let a4 = mh.and_then(|m| PeerId::from_multihash(m).ok());
+    a1 == r && a2 == r && a3 == r && a4 == r
+}
+
+fn json_plain(s: &str) -> bool {
+    s.bytes().all(|c| (32..127).contains(&c) && c != b'"' && c != b'\\')
+}
+
+/// Every other way of turning the same text into a PeerId gives the same answer.
+fn text_entry_points_agree(s: &str, r: Option<PeerId>) -> bool {
+    use serde::{de::value::StrDeserializer, de::IntoDeserializer, Deserialize};
+    let a1 = s.parse::<PeerId>().ok();
+    let de: StrDeserializer<'_, binserde::E> = s.into_deserializer();
+    let a2 = PeerId::deserialize(de).ok();
+    let mut ok = a1 == r && a2 == r;
+    if json_plain(s) {
+        ok &= serde_json::from_str::<PeerId>(&format!("\"{s}\"")).ok() == r;
+    }
+    if !s.contains('/') {
+        for name in ["p2p", "ipfs"] {
+            let a = format!("/{name}/{s}").parse::<Multiaddr>().ok();
+            ok &= a.as_ref().and_then(PeerId::try_from_multiaddr) == r;
+        }
+    }
+    ok
 }
 
 fn sha256(b: &[u8]) -> Vec<u8> {
@@ -273,6 +308,19 @@ fn normalise(c: &[u64]) -> Vec<u64> {
             }
             mk_key_case(&secret, &blob)
         }
+        Some(9) => {
+            let mut i = 1;
+            let Some(secret) = take_list(c, &mut i).and_then(|v| as_bytes(&v)) else { return c.to_vec() };
+            let _pub = take_list(c, &mut i);
+            let Some(blob) = take_list(c, &mut i).and_then(|v| as_bytes(&v)) else { return c.to_vec() };
+            if secret.len() != 32 {
+                return c.to_vec();
+            }
+            let mut k = mk_key_case(&secret, &blob);
+            k[0] = 9;
+            k
+        }
+        Some(10) => aux::normalise_rsa(c),
         _ => c.to_vec(),
     }
 }
@@ -314,27 +362,36 @@ fn run_case(c: &[u64]) -> Option<Vec<u64>> {
             if i != c.len() {
                 return None;
             }
-            let Some(b) = b else { return Some(vec![1, 0, 0]) };
-            Some(parse_result(1, PeerId::from_bytes(&b).ok(), RefPeerId::from_bytes(&b).ok()))
+            let Some(b) = b else { return Some(vec![1, 0, 0, 1]) };
+            let r = PeerId::from_bytes(&b).ok();
+            let agree = bytes_entry_points_agree(&b, r);
+            Some(parse_result(1, r, RefPeerId::from_bytes(&b).ok(), agree))
         }
         2 => {
             let b = as_bytes(&take_list(c, &mut i)?);
             if i != c.len() {
                 return None;
             }
-            let Some(s) = b.and_then(|b| String::from_utf8(b).ok()) else { return Some(vec![2, 0, 0]) };
-            Some(parse_result(2, PeerId::from_str(&s).ok(), RefPeerId::from_str(&s).ok()))
+            let Some(s) = b.and_then(|b| String::from_utf8(b).ok()) else { return Some(vec![2, 0, 0, 1]) };
+            let r = PeerId::from_str(&s).ok();
+            let agree = text_entry_points_agree(&s, r);
+            Some(parse_result(2, r, RefPeerId::from_str(&s).ok(), agree))
         }
         3 => {
             let b = as_bytes(&take_list(c, &mut i)?);
             if i != c.len() {
                 return None;
             }
-            let Some(b) = b else { return Some(vec![3, 0, 0]) };
+            let Some(b) = b else { return Some(vec![3, 0, 0, 1]) };
             let addr = Multiaddr::try_from(b).ok();
             let r = addr.as_ref().and_then(PeerId::try_from_multiaddr);
             let refp = addr.as_ref().and_then(last_p2p);
-            Some(parse_result(3, r, refp))
+            // the textual form of an accepted binary address parses back to the same id
+            let agree = match &addr {
+                Some(a) => a.to_string().parse::<Multiaddr>().ok().as_ref().and_then(PeerId::try_from_multiaddr) == r,
+                None => true,
+            };
+            Some(parse_result(3, r, refp, agree))
         }
         4 => {
             let blob = as_bytes(&take_list(c, &mut i)?)?;
@@ -389,7 +446,274 @@ fn run_case(c: &[u64]) -> Option<Vec<u64>> {
             out.push(same as u64);
             Some(out)
         }
+        6 => {
+            let b = as_bytes(&take_list(c, &mut i)?);
+            if i != c.len() {
+                return None;
+            }
+            let Some(s) = b.and_then(|b| String::from_utf8(b).ok()) else { return Some(vec![6, 0, 0, 1]) };
+            let addr = s.parse::<Multiaddr>().ok();
+            let r = addr.as_ref().and_then(PeerId::try_from_multiaddr);
+            let refp = addr.as_ref().and_then(last_p2p);
+            // binary and textual re-renderings of an accepted address lead to the same id
+            let agree = match &addr {
+                Some(a) => {
+                    Multiaddr::try_from(a.to_vec()).ok().as_ref().and_then(PeerId::try_from_multiaddr) == r
+                        && a.to_string().parse::<Multiaddr>().ok().as_ref().and_then(PeerId::try_from_multiaddr)
+                            == r
+                }
+                None => true,
+            };
+            Some(parse_result(6, r, refp, agree))
+        }
+        7 => {
+            let b1 = as_bytes(&take_list(c, &mut i)?);
+            let b2 = as_bytes(&take_list(c, &mut i)?);
+            if i != c.len() {
+                return None;
+            }
+            let p = b1.and_then(|b| PeerId::from_bytes(&b).ok());
+            let q = b2.and_then(|b| PeerId::from_bytes(&b).ok());
+            let mut out = vec![7, p.is_some() as u64, q.is_some() as u64];
+            if let (Some(p), Some(q)) = (p, q) {
+                use std::cmp::Ordering::*;
+                use std::hash::{BuildHasher, Hash, Hasher};
+                let ord = |o| match o {
+                    Less => 0u64,
+                    Equal => 1,
+                    Greater => 2,
+                };
+                let bh = std::collections::hash_map::RandomState::new();
+                let h = |x: &PeerId| {
+                    let mut s = bh.build_hasher();
+                    x.hash(&mut s);
+                    s.finish()
+                };
+                let eq = p == q;
+                // Ord, PartialOrd and their mirror images are one relation
+                let o = p.cmp(&q);
+                let coherent = p.partial_cmp(&q) == Some(o) && q.cmp(&p) == o.reverse() && (o == Equal) == eq;
+                out.push(eq as u64);
+                out.push(if coherent { ord(o) } else { 9 });
+                out.push((!eq || h(&p) == h(&q)) as u64);
+                out.push((p.to_bytes() == q.to_bytes()) as u64);
+                out.push(ord(p.to_bytes().cmp(&q.to_bytes())));
+                out.push((p.to_base58() == q.to_base58()) as u64);
+            }
+            Some(out)
+        }
+        8 => {
+            let n = *c.get(1)?;
+            if c.len() != 2 {
+                return None;
+            }
+            let mut seen = std::collections::HashSet::new();
+            let mut ok = true;
+            for _ in 0..n.min(64) {
+                let p = PeerId::random();
+                let mh = Multihash::from(p);
+                let mut t = vec![];
+                accepted_tail(p, RefPeerId::from_bytes(&p.to_bytes()).ok(), true, &mut t);
+                let k = t.len();
+                ok &= mh.code() == 0 && mh.digest().len() == 32 && t[k - 12..].iter().all(|x| *x == 1);
+                ok &= seen.insert(p);
+            }
+            Some(vec![8, ok as u64])
+        }
+        9 => aux::run_tls(c),
+        10 => aux::run_rsa(c),
         _ => None,
+    }
+}
+
+// ---------------------------------------------------------------- QUIC (TLS certificate) and RSA: optional build
+
+#[cfg(not(all(feature = "quic", feature = "rsa")))]
+mod aux {
+    pub const ENABLED: bool = false;
+    pub fn run_tls(_: &[u64]) -> Option<Vec<u64>> {
+        None
+    }
+    pub fn run_rsa(_: &[u64]) -> Option<Vec<u64>> {
+        None
+    }
+    pub fn normalise_rsa(c: &[u64]) -> Vec<u64> {
+        c.to_vec()
+    }
+    pub fn gen_rsa_case(_: &mut crate::util::Rng) -> Vec<u64> {
+        vec![8, 1]
+    }
+}
+
+#[cfg(all(feature = "quic", feature = "rsa"))]
+mod aux {
+    use super::*;
+    use litep2p::crypto::verif_tls::{verif_generate_with_identity, verif_parse_peer_id};
+    use ring::signature::{KeyPair, RsaKeyPair, RSA_PKCS1_SHA256};
+
+    pub const ENABLED: bool = true;
+
+    /// rust-libp2p's RSA test keys (libp2p-identity 0.2.14, src/test/rsa-*.pk8)
+    const KEYS: [&[u8]; 3] =
+        [include_bytes!("c18_rsa-2048.pk8"), include_bytes!("c18_rsa-3072.pk8"), include_bytes!("c18_rsa-4096.pk8")];
+
+    /// the TLS certificate path (QUIC): a certificate whose libp2p extension carries `blob`,
+    /// signed with the host key, parsed and verified by the real code
+    pub fn run_tls(c: &[u64]) -> Option<Vec<u64>> {
+        let mut i = 1;
+        let secret = as_bytes(&take_list(c, &mut i)?)?;
+        let _pub = take_list(c, &mut i)?;
+        let blob = as_bytes(&take_list(c, &mut i)?)?;
+        let kp = keypair_of(&secret)?;
+        let pk = kp.public();
+        let public = PublicKey::Ed25519(pk.clone());
+        let pid = PeerId::from_public_key(&public);
+        let mut out = vec![9];
+        el(&mut out, &pid.to_bytes());
+        el(&mut out, &pk.to_bytes());
+        let der = verif_generate_with_identity(blob, &|m| kp.sign(m)).ok()?;
+        match verif_parse_peer_id(&der) {
+            Some(p) => {
+                out.push(1);
+                el(&mut out, &p.to_bytes());
+            }
+            None => out.push(0),
+        }
+        let refkp = libp2p_identity::Keypair::ed25519_from_bytes(secret.clone()).ok()?;
+        el(&mut out, &refkp.public().to_peer_id().to_bytes());
+        out.push((pid.is_public_key(&public) == Some(true)) as u64);
+        Some(out)
+    }
+
+    fn der_len(n: usize) -> Vec<u8> {
+        if n < 128 {
+            vec![n as u8]
+        } else {
+            let be: Vec<u8> = n.to_be_bytes().iter().copied().skip_while(|b| *b == 0).collect();
+            let mut v = vec![0x80 | be.len() as u8];
+            v.extend(be);
+            v
+        }
+    }
+    fn der(tag: u8, content: &[u8]) -> Vec<u8> {
+        let mut v = vec![tag];
+        v.extend(der_len(content.len()));
+        v.extend(content);
+        v
+    }
+    /// SubjectPublicKeyInfo { { rsaEncryption, NULL }, BIT STRING pkcs1 } — written by hand, not
+    /// with the crate's encoder
+    pub fn spki(pkcs1: &[u8]) -> Vec<u8> {
+        let alg = der(0x30, &[0x06, 0x09, 0x2a, 0x86, 0x48, 0x86, 0xf7, 0x0d, 0x01, 0x01, 0x01, 0x05, 0x00]);
+        let mut bits = vec![0u8];
+        bits.extend(pkcs1);
+        der(0x30, &[alg, der(0x03, &bits)].concat())
+    }
+    pub fn canonical(pkcs1: &[u8]) -> Vec<u8> {
+        let s = spki(pkcs1);
+        let mut v = vec![0x08, 0x00, 0x12];
+        v.extend(varint(s.len() as u64));
+        v.extend(s);
+        v
+    }
+
+    fn key_for(pkcs1: &[u8]) -> Option<RsaKeyPair> {
+        KEYS.iter().filter_map(|k| RsaKeyPair::from_pkcs8(k).ok()).find(|k| k.public_key().as_ref() == pkcs1)
+    }
+
+    fn mk_case(blob: &[u8], pkcs1: &[u8]) -> Vec<u64> {
+        let mut c = vec![10];
+        el(&mut c, blob);
+        el(&mut c, pkcs1);
+        el(&mut c, &sha256(&canonical(pkcs1)));
+        let want = RemotePublicKey::from_protobuf_encoding(&canonical(pkcs1)).ok();
+        let got = RemotePublicKey::from_protobuf_encoding(blob).ok();
+        c.push((want.is_some() && got == want) as u64);
+        c
+    }
+
+    pub fn normalise_rsa(c: &[u64]) -> Vec<u64> {
+        let mut i = 1;
+        let Some(blob) = take_list(c, &mut i).and_then(|v| as_bytes(&v)) else { return c.to_vec() };
+        let Some(pk) = take_list(c, &mut i).and_then(|v| as_bytes(&v)) else { return c.to_vec() };
+        mk_case(&blob, &pk)
+    }
+
+    pub fn run_rsa(c: &[u64]) -> Option<Vec<u64>> {
+        let mut i = 1;
+        let blob = as_bytes(&take_list(c, &mut i)?)?;
+        let pkcs1 = as_bytes(&take_list(c, &mut i)?)?;
+        let kp = key_for(&pkcs1)?;
+        let sign = |m: &[u8]| {
+            let mut sig = vec![0u8; kp.public().modulus_len()];
+            kp.sign(&RSA_PKCS1_SHA256, &ring::rand::SystemRandom::new(), m, &mut sig).expect("rsa sign");
+            sig
+        };
+        let want = RemotePublicKey::from_protobuf_encoding(&canonical(&pkcs1)).ok();
+        let mut out = vec![10];
+        match RemotePublicKey::from_protobuf_encoding(&blob) {
+            Ok(k) if Some(&k) == want.as_ref() => {
+                out.push(1);
+                el(&mut out, &k.to_peer_id(&blob).to_bytes());
+            }
+            _ => out.push(0),
+        }
+        let dh = [0x42u8; 32];
+        let sig = sign(&[VERIF_STATIC_KEY_DOMAIN.as_bytes(), &dh[..]].concat());
+        match verif_parse_and_verify_peer_id(Some(blob.clone()), Some(sig), &dh) {
+            Ok(p) => {
+                out.push(1);
+                el(&mut out, &p.to_bytes());
+            }
+            Err(_) => out.push(0),
+        }
+        let der = verif_generate_with_identity(blob, &sign).ok()?;
+        match verif_parse_peer_id(&der) {
+            Some(p) => {
+                out.push(1);
+                el(&mut out, &p.to_bytes());
+            }
+            None => out.push(0),
+        }
+        Some(out)
+    }
+
+    pub fn gen_rsa_case(rng: &mut Rng) -> Vec<u64> {
+        let kp = RsaKeyPair::from_pkcs8(KEYS[rng.below(3) as usize]).expect("test key");
+        let pkcs1 = kp.public_key().as_ref().to_vec();
+        let mut data = spki(&pkcs1);
+        match rng.below(12) {
+            0 => data.extend(rand_bytes(rng, 3)), // trailing bytes after the DER structure
+            1 => {
+                let i = rng.below(data.len() as u64) as usize;
+                data[i] ^= 1 << rng.below(8);
+            }
+            2 => {
+                data.pop();
+            }
+            _ => {}
+        }
+        let tfield = |rng: &mut Rng, t: u64| {
+            let mut f = vec![0x08];
+            let st = if rng.chance(20) { rng.pick(&[1u64, 2, 3]) } else { 0 };
+            f.extend(styled_varint(rng, t, 10, 1, st));
+            f
+        };
+        let mut dfield = vec![0x12];
+        let st = if rng.chance(20) { rng.pick(&[1u64, 2]) } else { 0 };
+        dfield.extend(styled_varint(rng, data.len() as u64, 10, 1, st));
+        dfield.extend(&data);
+        let ktype = if rng.chance(8) { rng.pick(&[1u64, 2, 3]) } else { 0 };
+        let mut parts: Vec<Vec<u8>> = vec![tfield(rng, ktype), dfield];
+        match rng.below(8) {
+            0 => parts.swap(0, 1),
+            1 => parts.push(vec![0x18, 0x05]),
+            2 => parts.insert(0, vec![0x22, 0x02, 0xaa, 0xbb]),
+            3 => parts.insert(0, tfield(rng, 1)),
+            4 => parts.push(tfield(rng, 0)),
+            _ => {}
+        }
+        mk_case(&parts.concat(), &pkcs1)
     }
 }
 
@@ -515,8 +839,12 @@ fn gen_multihash_bytes(rng: &mut Rng) -> Vec<u8> {
 
 fn gen_text(rng: &mut Rng) -> Vec<u8> {
     let b = gen_multihash_bytes(rng);
-    let mut s = bs58::encode(&b).into_string().into_bytes();
-    match rng.below(14) {
+    gen_text_of(rng, &b)
+}
+
+fn gen_text_of(rng: &mut Rng, b: &[u8]) -> Vec<u8> {
+    let mut s = bs58::encode(b).into_string().into_bytes();
+    match rng.below(16) {
         0 => {
             if !s.is_empty() {
                 let i = rng.below(s.len() as u64) as usize;
@@ -534,6 +862,8 @@ fn gen_text(rng: &mut Rng) -> Vec<u8> {
             }
         }
         4 => s.clear(),
+        5 => s.insert(0, rng.pick(&[b' ', b'\n', b'\t', b'z'])),
+        6 => s.push(rng.pick(&[b' ', b'\n', b'\t', b'\r', b'=', b'\0'])),
         _ => {}
     }
     s
@@ -661,24 +991,151 @@ fn gen_blob(rng: &mut Rng, key: &[u8]) -> Vec<u8> {
     b
 }
 
-fn gen_case(rng: &mut Rng) -> Vec<u64> {
+/// bytes of an id that from_bytes accepts (canonical form)
+fn gen_valid_id_bytes(rng: &mut Rng) -> Vec<u8> {
+    let (code, l) = if rng.chance(50) {
+        (0x00u8, rng.pick(&[0usize, 1, 31, 32, 32, 36, 36, 41, 42]))
+    } else {
+        (0x12u8, rng.pick(&[0usize, 1, 31, 32, 32, 32, 33, 63, 64]))
+    };
+    let mut b = vec![code, l as u8];
+    if rng.chance(30) {
+        // few distinct digests so that equal and nearly equal ids meet
+        b.extend(std::iter::repeat(rng.below(3) as u8).take(l));
+    } else {
+        b.extend(rand_bytes(rng, l));
+    }
+    b
+}
+
+fn gen_addr_text(rng: &mut Rng) -> Vec<u8> {
+    let id = |rng: &mut Rng| -> String {
+        let b = if rng.chance(85) { gen_valid_id_bytes(rng) } else { gen_multihash_bytes(rng) };
+        if rng.chance(80) {
+            bs58::encode(&b).into_string()
+        } else {
+            String::from_utf8(gen_text_of(rng, &b)).unwrap_or_default()
+        }
+    };
+    let mut s = String::new();
+    let ncomp = rng.pick(&[1u64, 1, 1, 1, 2, 3]);
+    for _ in 0..ncomp {
+        match rng.below(12) {
+            0 | 1 => s.push_str("/p2p-circuit"),
+            2 | 3 => {
+                s.push_str("/ipfs/");
+                s.push_str(&id(rng));
+            }
+            4 => {
+                s.push('/');
+                s.push_str(rng.pick(&["P2P", "p2", "p2pp", "ip", "", "p2p-circui", "Ipfs"]));
+                s.push('/');
+                s.push_str(&id(rng));
+            }
+            _ => {
+                s.push_str("/p2p/");
+                s.push_str(&id(rng));
+            }
+        }
+    }
+    match rng.below(28) {
+        0 => s.push('/'),
+        1 => {
+            if !s.is_empty() {
+                s.remove(0);
+            }
+        }
+        2 => s.insert(0, '/'),
+        3 => s.push_str("/p2p"),
+        4 => s.push_str("/ipfs"),
+        5 => s.clear(),
+        6 => s = "/".into(),
+        _ => {}
+    }
+    s.into_bytes()
+}
+
+fn gen_pair(rng: &mut Rng) -> (Vec<u8>, Vec<u8>) {
+    let a = if rng.chance(90) { gen_valid_id_bytes(rng) } else { gen_multihash_bytes(rng) };
+    let b = match rng.below(8) {
+        0 | 1 => a.clone(),
+        2 | 3 => {
+            let mut b = a.clone();
+            if b.len() > 2 {
+                let i = rng.range(2, b.len() as u64 - 1) as usize;
+                b[i] = b[i].wrapping_add(rng.pick(&[1u8, 255, 128]));
+            }
+            b
+        }
+        4 => {
+            // same digest, other code
+            let mut b = a.clone();
+            if !b.is_empty() {
+                b[0] = if b[0] == 0 { 0x12 } else { 0 };
+            }
+            b
+        }
+        5 => {
+            // digest one byte longer or shorter (a prefix of the other)
+            let mut b = a.clone();
+            if b.len() > 2 && rng.chance(50) {
+                b.pop();
+                b[1] = b[1].wrapping_sub(1);
+            } else if b.len() >= 2 && b[1] < 42 {
+                b.push(rng.pick(&[0u8, 1, 255]));
+                b[1] = b[1].wrapping_add(1);
+            }
+            b
+        }
+        _ => gen_valid_id_bytes(rng),
+    };
+    if rng.chance(50) {
+        (a, b)
+    } else {
+        (b, a)
+    }
+}
+
+fn gen_case(rng: &mut Rng, aux_only: bool) -> Vec<u64> {
+    if aux_only {
+        // the optional build: TLS certificates (QUIC) and RSA keys
+        if rng.chance(35) {
+            return aux::gen_rsa_case(rng);
+        }
+        let mut c = gen_key_case(rng);
+        c[0] = 9;
+        return c;
+    }
     match rng.below(100) {
-        0..=34 => {
+        0..=27 => {
             let mut c = vec![1];
             el(&mut c, &gen_multihash_bytes(rng));
             c
         }
-        35..=49 => {
+        28..=39 => {
             let mut c = vec![2];
             el(&mut c, &gen_text(rng));
             c
         }
-        50..=64 => {
+        40..=51 => {
             let mut c = vec![3];
             el(&mut c, &gen_component(rng));
             c
         }
-        65..=86 => {
+        52..=63 => {
+            let mut c = vec![6];
+            el(&mut c, &gen_addr_text(rng));
+            c
+        }
+        64..=73 => {
+            let (a, b) = gen_pair(rng);
+            let mut c = vec![7];
+            el(&mut c, &a);
+            el(&mut c, &b);
+            c
+        }
+        74 => vec![8, rng.range(1, 8)],
+        75..=90 => {
             let key = if rng.chance(80) {
                 keypair_of(&random_secret(rng)).unwrap().public().to_bytes().to_vec()
             } else {
@@ -686,23 +1143,25 @@ fn gen_case(rng: &mut Rng) -> Vec<u64> {
             };
             mk_blob_case(&gen_blob(rng, &key))
         }
-        _ => {
-            let secret = random_secret(rng);
-            let key = if rng.chance(92) {
-                keypair_of(&secret).unwrap().public().to_bytes().to_vec()
-            } else {
-                keypair_of(&random_secret(rng)).unwrap().public().to_bytes().to_vec()
-            };
-            let blob = if rng.chance(35) {
-                let mut b = vec![8, 1, 18, 32];
-                b.extend(&key);
-                b
-            } else {
-                gen_blob(rng, &key)
-            };
-            mk_key_case(&secret, &blob)
-        }
+        _ => gen_key_case(rng),
     }
+}
+
+fn gen_key_case(rng: &mut Rng) -> Vec<u64> {
+    let secret = random_secret(rng);
+    let key = if rng.chance(92) {
+        keypair_of(&secret).unwrap().public().to_bytes().to_vec()
+    } else {
+        keypair_of(&random_secret(rng)).unwrap().public().to_bytes().to_vec()
+    };
+    let blob = if rng.chance(35) {
+        let mut b = vec![8, 1, 18, 32];
+        b.extend(&key);
+        b
+    } else {
+        gen_blob(rng, &key)
+    };
+    mk_key_case(&secret, &blob)
 }
 
 pub fn main(args: &Args) {
@@ -728,9 +1187,14 @@ pub fn main(args: &Args) {
     if args.str("replay").is_some() {
         return;
     }
+    let aux_only = args.str("aux").is_some();
+    if aux_only && !aux::ENABLED {
+        eprintln!("c18 --aux needs a harness built with --features quic,rsa");
+        std::process::exit(2);
+    }
     for _ in 0..ncases {
         let mut r = rng.fork();
-        let c = gen_case(&mut r);
+        let c = gen_case(&mut r, aux_only);
         let t = run(&c);
         out.emit(&c, &t);
     }
